@@ -275,7 +275,12 @@ class Check:
     def findings(self):
         if self._findings is None:
             p = os.path.join(VERIF, "known_findings.json")
-            self._findings = json.load(open(p))["findings"] if os.path.exists(p) else []
+            self._findings = list(json.load(open(p))["findings"]) if os.path.exists(p) else []
+            dd = os.path.join(VERIF, "known_findings.d")
+            if os.path.isdir(dd):
+                for f in sorted(os.listdir(dd)):
+                    if f.endswith(".json"):
+                        self._findings += json.load(open(os.path.join(dd, f)))["findings"]
         return self._findings
 
     def report(self, op, cls, what, replay_obj):
